@@ -1,5 +1,5 @@
 """C18 Enum and Flag representations are bijections on their members."""
-from vf.gen import Module, Plan
+from vf.gen import Module, Plan, Ob
 
 SETUP = '''
 import enum, itertools
@@ -327,6 +327,86 @@ def flag_names_reject(fn, style, oi, rk, n, i0, i1, i2):
     return True
 '''
 
+KFLAG = '''
+def smt_kflag():
+    \"\"\"E2 K-flag: the guards of FlagByExactValueProvider._make_loader, read from the AST of the current source, imply that a datum that
+    passes the range check has no bit outside the mask -- for ALL masks below 2**63, which no enumeration of classes can give.
+        mask >= 0  and  2**bit_length(mask) - 1 == mask  and  0 <= data <= mask   =>   data & ~mask == 0 \"\"\"
+    import ast, inspect, textwrap, time, z3
+    from adaptix._internal.morphing.enum_provider import FlagByExactValueProvider
+    t0 = time.time()
+    src = textwrap.dedent(inspect.getsource(FlagByExactValueProvider._make_loader))
+    tree = ast.parse(src)
+    W = 64
+    mask, data = z3.BitVec("mask", W), z3.BitVec("data", W)
+    def bit_length(x):
+        r = z3.BitVecVal(0, W)
+        for i in range(W):
+            r = z3.If(z3.Extract(i, i, x) == 1, z3.BitVecVal(i + 1, W), r)
+        return r
+    env = {"flag_mask": mask, "data": data}
+    guards_neg = []          # conditions under which the code refuses (raise)
+    def ev(node):
+        if isinstance(node, ast.Name) and node.id in env: return env[node.id]
+        if isinstance(node, ast.Constant) and isinstance(node.value, int): return z3.BitVecVal(node.value, W)
+        if isinstance(node, ast.BinOp):
+            if isinstance(node.op, ast.Pow) and isinstance(node.left, ast.Constant) and node.left.value == 2:
+                return z3.BitVecVal(1, W) << ev(node.right)
+            a, b = ev(node.left), ev(node.right)
+            if isinstance(node.op, ast.Sub): return a - b
+            if isinstance(node.op, ast.Add): return a + b
+        if isinstance(node, ast.Call) and isinstance(node.func, ast.Attribute) and node.func.attr == "bit_length":
+            return bit_length(ev(node.func.value))
+        raise ValueError("outside the grammar: " + ast.unparse(node)[:60])
+    def cond(node):
+        if isinstance(node, ast.BoolOp):
+            parts = [cond(v) for v in node.values]
+            return z3.Or(parts) if isinstance(node.op, ast.Or) else z3.And(parts)
+        if isinstance(node, ast.Compare) and len(node.ops) == 1:
+            a, b = ev(node.left), ev(node.comparators[0])
+            op = node.ops[0]
+            if isinstance(op, ast.Lt): return a < b
+            if isinstance(op, ast.Gt): return a > b
+            if isinstance(op, ast.NotEq): return a != b
+            if isinstance(op, ast.Eq): return a == b
+        raise ValueError("test outside the grammar: " + ast.unparse(node)[:60])
+    try:
+        for node in ast.walk(tree):
+            if isinstance(node, ast.Assign) and isinstance(node.targets[0], ast.Name) and node.targets[0].id == "all_bits":
+                env["all_bits"] = ev(node.value)
+        for node in ast.walk(tree):
+            if isinstance(node, ast.If) and any(isinstance(b, ast.Raise) for b in node.body):
+                t = ast.unparse(node.test)
+                if "type(data)" in t: continue
+                guards_neg.append(cond(node.test))
+    except ValueError as e:
+        return {"status": "UNKNOWN", "detail": "cannot encode: %s" % (e,)}
+    if len(guards_neg) < 3:
+        return {"status": "UNKNOWN", "detail": "expected 3 refusing guards (negative mask, skipped bits, range), found %d" % len(guards_neg)}
+    s = z3.Solver()
+    s.add(mask >= 0, mask < z3.BitVecVal(2 ** 62, W), data >= 0)      # Python ints: the loader sees mathematical integers, no wrap-around below 2**62
+    for g in guards_neg: s.add(z3.Not(g))
+    s.add(data & ~mask != 0)
+    r = str(s.check())
+    rec = {"solver_queries": 1, "solver_s": round(time.time() - t0, 3), "evaluations": 1, "backend": "z3 QF_BV (64 bit)",
+           "functions_encoded": ["morphing/enum_provider.py:FlagByExactValueProvider._make_loader (3 guards + all_bits)"]}
+    if r == "unsat": rec["status"] = "CONFIRMED"
+    elif r == "sat": rec.update(status="REFUTED", cex={"mask": str(s.model()[mask].as_long()), "data": str(s.model()[data].as_long())})
+    else: rec.update(status="UNKNOWN", detail=r)
+    return rec
+
+def chk_kflag(mask, data):
+    return data & ~mask == 0 or not (mask >= 0 and 2 ** mask.bit_length() - 1 == mask and 0 <= data <= mask)
+'''
+
+
+def kflag_module():
+    m = Module("c18_kflag")
+    m.fns.append(KFLAG)
+    m.obs.append(Ob(name="kflag", module=m.key, kind="smt", timeout=120, family="E2 K-flag: mask / range guard of the exact-value flag loader (z3 bit-vectors)",
+                    bounds="all masks and data below 2**62 (64-bit vectors); guards taken from the AST of the current source"))
+    return m
+
 
 def build(tier, seed):
     quick = tier == "quick"
@@ -370,5 +450,5 @@ def build(tier, seed):
                   pre=["0 <= oi < 8", "0 <= rk < 7", f"0 <= n <= {nmax}", "0 <= i0 < 9 and 0 <= i1 < 9 and 0 <= i2 < 9"], timeout=tmo * 2,
                   family="flag by member names: accepts exactly valid name lists",
                   bounds=f"candidate: list/tuple/str/dict/None/int/iterator of <= {nmax} items from member names + near misses + non-str + unhashable; 8 option combinations")
-    return Plan("C18", [m, mf], assumptions=["bool/int look-alike data for int-valued enums are not counted as non-representations (True == 1)"],
+    return Plan("C18", [m, mf, kflag_module()], assumptions=["bool/int look-alike data for int-valued enums are not counted as non-representations (True == 1)"],
                 bounds={"flag bits": "3"}, outside=["flags with more than 3 bits (K-flag covers the mask guard for all masks)", "members >= 2**53 (float log2)"])
